@@ -24,6 +24,8 @@ for d in sorted(os.listdir(os.path.join(HERE, "seeded"))):
     caught = ", ".join(m.get("caught_by", [])) or "**none**"
     if m.get("caught_on_final_tree") == []:
         caught += " (earlier trees; not observable on the final tree, see meta.json)"
+    elif m.get("final_tree", {}).get("quick_seeds_1_2_3") == "not reported":
+        caught += " (thorough tier only on the final tree, see meta.json)"
     elif m.get("note") and not m.get("caught_by"):
         caught = "**none** (see meta.json)"
     keys = []
